@@ -38,6 +38,11 @@ TIMEOUT = {"quick": 900, "thorough": 7200}
 
 ASYNC = ("packet_in", "flow_removed", "port_status")
 NPORTS = 4
+# one more port with a three-digit number: the name this switch gives it fills
+# the 16-octet name field to the last octet (such a switch has to be able to
+# describe itself all the same)
+XPORT = 256
+PORTS = list(range(1, NPORTS + 1)) + [XPORT]
 DPID = 0x0000aabbccddee01
 XIDS = [0, 1, 2, 1 << 31, (1 << 32) - 1, 0x7fffffff, 12345]
 
@@ -73,7 +78,7 @@ class Model (object):
     self.flags = 0
     self.miss_send_len = 128
     self.table = OT.Table()
-    self.ports = set(range(1, NPORTS + 1))
+    self.ports = set(PORTS)
     self.tx = {p: [0, 0] for p in self.ports}
     self.config = {p: 0 for p in self.ports}
 
@@ -445,8 +450,11 @@ def gen_request (rng, xid):
 def new_switch (max_entries=None):
   kw = {}
   if max_entries: kw["max_entries"] = max_entries
-  return simnet.DirectSwitch(dpid=DPID, ports=NPORTS, max_buffers=0,
-                             miss_send_len=128, **kw)
+  d = simnet.DirectSwitch(dpid=DPID, ports=NPORTS, max_buffers=0,
+                          miss_send_len=128, **kw)
+  d.switch.add_port(d.switch.generate_port(XPORT))
+  d.take_bytes()
+  return d
 
 
 def decode_out (b, fire):
@@ -696,7 +704,7 @@ def label (req):
     extra = ""
     if t in (1, 2) and d["body"]["table_id"] not in (0, 0xff): extra = " other-table"
     if t == 4 and d["body"]["port_no"] != 0xffff:
-      extra = " port" if d["body"]["port_no"] in range(1, NPORTS + 1) else " missing-port"
+      extra = " port" if d["body"]["port_no"] in PORTS else " missing-port"
     if t == 5 and d["body"]["queue_id"] != 0xffffffff: extra = " specific-queue"
     return "stats_request[%s%s]" % (s, extra)
   if n == "flow_mod":
@@ -708,11 +716,11 @@ def label (req):
       return "packet_out[unknown-action]"
     return "packet_out"
   if n == "port_mod":
-    if d["port_no"] not in range(1, NPORTS + 1): return "port_mod[bad-port]"
+    if d["port_no"] not in PORTS: return "port_mod[bad-port]"
     if d["hw_addr"] != port_hw(d["port_no"]): return "port_mod[bad-hw-addr]"
     return "port_mod"
   if n == "queue_get_config_request":
-    return "queue_get_config_request%s" % ("" if d["port"] in range(1, NPORTS + 1)
+    return "queue_get_config_request%s" % ("" if d["port"] in PORTS
                                            else "[missing-port]")
   return n
 
